@@ -703,6 +703,24 @@ pub fn run(ctx: &Ctx, rep: &Report) {
         &|| builder_case(),
         &check_builder,
     );
+    run_prop(
+        ctx,
+        rep,
+        "wire",
+        ctx.tier.pick(10_000, 200_000),
+        &|| {
+            (msg_case(4096), 0usize..4)
+                .prop_map(|(c, trailing)| {
+                    let mut bytes = codec::encode_frame(&c.oheader(), &c.query(), &fill(c.blen, c.bseed));
+                    bytes.extend(fill(trailing * 7, c.qseed));
+                    WireCase {
+                        hex: bytes.iter().map(|b| format!("{b:02x}")).collect(),
+                    }
+                })
+                .boxed()
+        },
+        &check_wire,
+    );
     super::c01_net::run(ctx, rep);
 }
 
@@ -711,16 +729,52 @@ pub fn replay(sub: &str, case: &Value) -> Result<(), Fail> {
         "pure" | "pure-large" => replay_case::<MsgCase>(case, &check_pure),
         "header" => replay_case::<HdrCase>(case, &check_hdr),
         "builder" => replay_case::<BuilderCase>(case, &check_builder),
+        "wire" => replay_case::<WireCase>(case, &check_wire),
         s if s.starts_with("net-") => super::c01_net::replay(sub, case),
         _ => Err(Fail::new("replay-unknown-sub", sub.to_string())),
     }
 }
 
+/// Decode side of the round trip for verbatim wire bytes: whatever the independent
+/// parser accepts as one frame, the crate must decode to the same fields and re-emit,
+/// through every route, as exactly the same bytes.
+#[derive(Debug, Clone, Serialize, Deserialize, Hash, PartialEq, Eq)]
+pub struct WireCase {
+    pub hex: String,
+}
+
+pub fn check_wire(c: &WireCase) -> CheckResult {
+    let bytes: Vec<u8> = (0..c.hex.len() / 2).filter_map(|i| u8::from_str_radix(&c.hex[2 * i..2 * i + 2], 16).ok()).collect();
+    let codec::Parse::Frame { trailing, .. } = codec::parse(&bytes) else {
+        return Ok(CaseInfo::new(false).class("not-a-frame"));
+    };
+    let total = bytes.len() - trailing;
+    let frame = &bytes[..total];
+    let m = Message::from_slice(frame).map_err(|e| Fail::new("wire-parse", format!("a consistent frame was rejected: {e}")))?;
+    let oh = OHeader::raw(frame);
+    eq_hdr("wire", &m.header, &oh)?;
+    ensure!(m.query == frame[48..48 + m.query.len()] && m.body == frame[48 + m.query.len()..], "wire-payload", "decoded query/body differ from the input bytes");
+    ensure!(m.to_vec() == frame, "wire-to_vec", "to_vec differs from the decoded frame");
+    let mut w = Vec::new();
+    repe::write_message(&mut w, &m).map_err(|e| Fail::new("wire-write", e.to_string()))?;
+    ensure!(w == frame, "wire-write_message", "write_message differs from the decoded frame");
+    ensure!(m.clone().into_wire_bytes() == frame, "wire-into_wire_bytes", "into_wire_bytes differs from the decoded frame");
+    let v = repe::MessageView::from_slice(frame).map_err(|e| Fail::new("wire-view", e.to_string()))?;
+    ensure!(v.to_message().to_vec() == frame, "wire-view-to_message", "MessageView::to_message re-encodes differently");
+    Ok(CaseInfo::new(total > 48).class(format!("total={}", len_class(total))))
+}
+
 pub fn fuzz_targets() -> Vec<crate::fuzz::Target> {
-    use crate::fuzz::from_strategy;
-    vec![
-        from_strategy("c01_pure", "C01", "pure", || msg_case(65536), check_pure),
-        from_strategy("c01_header", "C01", "header", hdr_case, check_hdr),
-        from_strategy("c01_builder", "C01", "builder", builder_case, check_builder),
-    ]
+    use crate::fuzz::from_bytes;
+    vec![from_bytes(
+        "c01_wire",
+        "C01",
+        "wire",
+        |data: &[u8]| {
+            Some(WireCase {
+                hex: data.iter().map(|b| format!("{b:02x}")).collect(),
+            })
+        },
+        check_wire,
+    )]
 }
